@@ -162,7 +162,43 @@ def parseVals : List (List Int) → Option (List (Val Rat))
 def opDegrees (flags : List Int) : String :=
   match decodeCfg flags with
   | none => "err BadOp"
-  | some cfg => okG [[b2i (degreesOk cfg.ssl (build cfg)), b2i cfg.valid]]
+  | some cfg => okG [[b2i (degreesOk cfg.ssl (build cfg))]]
+
+def parseStore : List (List Int) → Option (Store Rat)
+  | [] => some fun _ => none
+  | [k, nc, ns, c] :: data :: rest =>
+      match keyOrder[k.toNat]? with
+      | none => none
+      | some key =>
+        (parseStore rest).map fun s =>
+          s.set key (some { nc := nc.toNat, ns := ns.toNat, cplx := c ≠ 0, data := toRat data })
+  | _ => none
+
+/-- one transform class on an explicit sample: `stage code a b | eps_num eps_den k padTo | (key nc ns cplx | data)*` -/
+def opStage (hd aux : List Int) (s : Store Rat) : String :=
+  let X : Ext Rat := { lin := fun _ _ v => v, mask := fun _ _ _ _ _ _ => [], split := fun _ _ _ _ => [],
+                       eps := (aux.getD 0 0 : Rat) / (aux.getD 1 1 : Rat), kOf := fun _ => (aux.getD 2 1).toNat,
+                       padCoilsTo := (aux.getD 3 0).toNat, espirit := fun v => v }
+  let a := hd.getD 1 0
+  let b := hd.getD 2 0
+  let st : Option Stage := match hd.getD 0 (-1) with
+    | 0 => some (.computeZeroPadding .kspace .padding thrCurrent)
+    | 1 => some (.applyZeroPadding .kspace .padding)
+    | 2 => some (.applyMask .samplingMask .kspace .maskedKspace)
+    | 3 => some (.computeScalingFactor (decodeSK a) (b ≠ 0) .scalingFactor)
+    | 4 => some (.normalize .scalingFactor [.kspace, .maskedKspace])
+    | 5 => some (.computeImage .kspace .target (decodeRecon a))
+    | 6 => some (.padCoilDimension .kspace)
+    | 7 => some (.estimateSensitivityMap .kspace (decodeSMap a) false)
+    | 8 => some (.deleteKeys [.acsMask, .kspace])
+    | 9 => some (.renameKeys [.maskedKspace, .acsMask] [.inputKspace, .kspace])
+    | _ => none
+  match st with
+  | none => "err BadOp"
+  | some st =>
+    match exec ratOps X ⟨[], []⟩ (compile st) s with
+    | .ok s' => fmtStore s'
+    | .error e => "err " ++ errName e
 
 def step (op : String) (gs : List (List Int)) : String :=
   match op, gs with
@@ -172,6 +208,10 @@ def step (op : String) (gs : List (List Int)) : String :=
     | some vs => opPrim code aux vs
     | none => "err BadOp"
   | "degrees", [flags] => opDegrees flags
+  | "stage", hd :: aux :: rest =>
+    match parseStore rest with
+    | some s => opStage hd aux s
+    | none => "err BadOp"
   | _, _ => "err BadOp"
 
 end DirectVerif.Driver.C08
